@@ -913,6 +913,11 @@ func (c ConditionsSet) invert() ConditionsSet {
 		// conjunctions here it grows exponentially even when the result is tiny
 		conds = conds.And(cc.invert()).Clean()
 	}
+	if len(conds) == 0 {
+		// every alternative was impossible: the negation accepts every stream. an explicit
+		// always-true alternative keeps that apart from "no filter given"
+		return ConditionsSet{Conditions{}}
+	}
 	return conds
 }
 
